@@ -133,6 +133,9 @@ func (g *mgen) setResField(r *api.LinuxResources, kind, key string, boundary boo
 	}
 	n := g.num(boundary)
 	un := uint64(g.next())
+	if boundary && g.chance(0.08) {
+		un = []uint64{0, 1, 1<<64 - 1}[g.rng.IntN(3)]
+	}
 	switch kind {
 	case "mem.limit":
 		if n == 0 {
@@ -239,7 +242,11 @@ func (g *mgen) adjSet(a *api.ContainerAdjustment, kind, key string, boundary boo
 	case "cgroupspath":
 		ensureLinuxAdj(a).CgroupsPath = fmt.Sprintf("/cg/%d", g.next())
 	case "oomscoreadj":
-		ensureLinuxAdj(a).OomScoreAdj = &api.OptionalInt{Value: g.next()%2000 - 1000}
+		v := g.next()%2000 - 1000
+		if g.chance(0.3) {
+			v = []int64{0, -1000, 1000, 1}[g.rng.IntN(4)]
+		}
+		ensureLinuxAdj(a).OomScoreAdj = &api.OptionalInt{Value: v}
 	default:
 		l := ensureLinuxAdj(a)
 		g.setResField(ensureRes(&l.Resources), kind, key, boundary)
